@@ -18,6 +18,9 @@ def body(led):
     c12_conn.body(led)
     from . import c12_kernels
     c12_kernels.body(led)
+    if getattr(led, 'tier', 'quick') == 'thorough':
+        from . import binary_xcheck
+        binary_xcheck.check_connections(led)
 
 
 def main():
